@@ -11,6 +11,8 @@ import AfkakProofs.Group.JoinIds
 import AfkakProofs.Group.LeaveDrain
 import AfkakProofs.Group.ComposedBase
 import AfkakProofs.Group.ComposedFenced
+import AfkakProofs.Group.StrictPartial
+import AfkakProofs.Group.LeaveTrace
 import AfkakProps.Open.C16
 /-!
 # C16 — generation fencing: no partition consumer outlives its group generation
@@ -226,6 +228,19 @@ theorem C16_leave_after_drain_partial (cfg : Cfg) (evs : List Ev) (h1 : (final c
     ∀ c ∈ (final cfg evs).cons, c.phase = .stopped :=
   stopping_all_stopped cfg evs h1 h2 h3
 
+/-- The leave MONITOR on every history in which neither known finding's situation occurs
+    (`leaveDuringDrain`, a decidable predicate of the event list: the step that sends the LeaveGroup
+    leaves the join coroutine in the middle of `on_join_prepare` — finding
+    `stop-kills-consumers-draining-for-rejoin`, reached by a `stop()` or a fatal error during a rejoin's
+    drain — or a `ConsumerGroup.stop` still waiting for its consumers — finding
+    `fatal-error-stop-leaves-while-stop-drains`): the LeaveGroup request is observed only in a step
+    after which NO partition consumer is running or draining.  The Lean content beyond the state
+    theorem above: a step that sends the leave ends with `_stopping` set (`step_leave_stopping`: the
+    leave comes from `Coordinator.stop` only). -/
+theorem C16_leave_after_drain_trace_partial (cfg : Cfg) (evs : List Ev) (h : leaveDuringDrain cfg evs = false) :
+    Afkak.Monitor.C16Leave.leaveAfterDrain (toMSteps (run cfg evs)) = true :=
+  leaveAfterDrain_run cfg evs h
+
 def exCfg : Cfg := { initialBackoffMs := 1000, retryBackoffMs := 125, fatalBackoffMs := 10000, heartbeatMs := 5000 }
 
 /-! Non-vacuity: a reachable state with running consumers of generation 5, one with a join in
@@ -248,6 +263,25 @@ theorem C16_strict_after_stop_counterexample : ¬ Open.C16_after_stop_called_onl
   have := h exCfg (exStable ++ [.stop, .advance 5, .fire 0 none])
   revert this
   decide +kernel
+
+/-- The strict reading holds of EVERY history in which the known finding's situation does not occur
+    (`timerRequestDuringStopDrain`: a timer firing — heartbeat tick, rejoin or coordinator-retry timer —
+    that sends a heartbeat / coordinator look-up while `ConsumerGroup.stop` is still draining the
+    consumers, i.e. `_stop_draining` set and `Coordinator.stop` not begun).  So the ONLY group requests
+    after `stop()` was called are those: no reply, consumer event, `start()` or second `stop()` sends
+    anything but the leave.  The gap to `Open.C16_after_stop_called_only_leave` is exactly the finding
+    `group-requests-during-stop-drain`. -/
+theorem C16_after_stop_called_only_leave_partial (cfg : Cfg) (evs : List Ev)
+    (h : timerRequestDuringStopDrain cfg evs = false) : strictAfterStop (toMSteps (run cfg evs)) = true :=
+  strictAfterStop_run cfg evs h
+
+/-! Non-vacuity: `stop()` on a stable member with two consumers, during the drain a consumer reports a
+rebalance (a rejoin timer is set), a heartbeat tick that sends nothing (not due: refused) and the
+first consumer finishes, then the second: the leave goes out — the hypothesis holds although the drain
+is not empty of events; on the counterexample's history it fails. -/
+example : timerRequestDuringStopDrain exCfg (exStable ++ [.stop, .consumerErr 1 .rebalanceInProgress, .fire 0 none,
+    .consumerDown 0 true, .advance 1, .consumerDown 1 true, .leaveDone .ok]) = false := by decide +kernel
+example : timerRequestDuringStopDrain exCfg (exStable ++ [.stop, .advance 5, .fire 0 none]) = true := by decide +kernel
 
 /-- The graceful-shutdown clause is FALSE of the code when `stop()` arrives while a rejoin is
     draining the consumers: stable with two consumers, RebalanceInProgress on the heartbeat, the
@@ -279,6 +313,16 @@ example : (final exCfg (exStable ++ [.stop, .consumerDown 0 true, .consumerDown 
     (final exCfg (exStable ++ [.stop, .consumerDown 0 true, .consumerDown 1 true])).jpc ≠ .prepare ∧
     (final exCfg (exStable ++ [.stop, .consumerDown 0 true, .consumerDown 1 true])).stops = [] ∧
     (final exCfg (exStable ++ [.stop, .consumerDown 0 true, .consumerDown 1 true])).leaveWait.isSome = true := by decide +kernel
+
+/-! Non-vacuity of `C16_leave_after_drain_trace_partial`: an ordinary stop (drained, leave sent), and a
+rebalance whose drain completes before `stop()` — the hypothesis holds and a leave IS sent; on the two
+counterexample histories it fails. -/
+example : leaveDuringDrain exCfg (exStable ++ [.stop, .consumerDown 0 true, .consumerDown 1 true]) = false ∧
+    ((run exCfg (exStable ++ [.stop, .consumerDown 0 true, .consumerDown 1 true])).any fun x => x.2.1.any Afkak.Monitor.C16Leave.isLeaveOb) = true := by
+  decide +kernel
+example : leaveDuringDrain exCfg (exStable ++ [.stop, .consumerErr 0 .nonKafka]) = true := by decide +kernel
+example : leaveDuringDrain exCfg (exStable ++ [.advance 5, .fire 0 none, .hbDone (.err .rebalanceInProgress), .advance 1, .fire 2 none,
+    .coordDone .ok, .metaDone .ok, .stop]) = true := by decide +kernel
 
 open Afkak.GroupCompose in
 example : ((prun exCfg (exStable.map .grp ++ [.conFetch 0, .conCommit 1, .grp (.advance 5), .grp (.fire 0 none),
@@ -324,6 +368,8 @@ C16_composed_live
 C16_composed_fenced
 C16_leave_after_drain_partial
 C16_leave_after_drain_counterexample
+C16_after_stop_called_only_leave_partial
+C16_leave_after_drain_trace_partial
 -/
 /- OPEN_STATEMENTS
 C16_after_stop_called_only_leave
